@@ -94,8 +94,11 @@ def gen(rng, tier, ctx):
                                       "partial": rng.choice([0, 0.5])}]
             elif f < 0.5:
                 base["interrupt"] = {"frac": rng.random(), "phase": rng.choice(["write", "write", "any"])}
-                if rng.random() < 0.5:
+                r2 = rng.random()
+                if r2 < 0.4:
                     base["kill"] = {"keep": rng.choice([0.0, rng.random(), 1.0])}
+                elif r2 < 0.65:
+                    base["interrupt"]["exc"] = "MemoryError"
         opl.append(base)
         if base.get("fs_faults") or base.get("interrupt"):
             clean = {k: v for k, v in base.items() if k not in ("fs_faults", "interrupt", "kill")}
@@ -214,11 +217,11 @@ def execute(spec, w, ctx):
                 opens = [e[4] for e in out0["fs_events"] if genops.is_write_open(e)]
                 if opens:
                     lo = opens[0]
-            cfg["interrupt"] = {"at": lo + int(intr["frac"] * max(0, total - lo))}
+            cfg["interrupt"] = {"at": lo + int(intr["frac"] * max(0, total - lo)), "exc": intr.get("exc")}
             if op.get("kill"):
                 cfg["kill"] = op["kill"]
         out, before, after, changed, wopens = genops.run_gen(w, op, cfg)
-        faulted = bool(out["fs_fired"]) or out["status"] == "interrupt"
+        faulted = bool(out["fs_fired"]) or out["status"] == "interrupt" or bool(out.get("injected"))
         shapes.append(("m" if kind == "gen_manual" else "g") + ("F" if faulted else "") + ("s" if op.get("solve") else ""))
         if op.get("same_process"):
             w.fired("same-process-call")
